@@ -8,7 +8,7 @@ DEFINITE = ('postcondition not satisfied', 'precondition not satisfied', 'assert
             'decreases not satisfied', 'possible arithmetic underflow/overflow', 'possible division by zero',
             'index out of bounds', 'unreachable', 'requires not satisfied', 'could not prove termination',
             'possible bit shift underflow/overflow', 'constructor of a shrunk', 'failed this postcondition',
-            'cannot show invariant', 'cannot prove')
+            'cannot show invariant', 'cannot prove', 'unable to prove')
 RESOURCE = ('Resource limit (rlimit) exceeded', 'resource limit', 'timed out', 'rlimit')
 
 def run_verus(gen_path, edition, extra_args, seed=None, rlimit_mult=1, timeout=1800):
@@ -96,6 +96,9 @@ def classify(meta, res, gen_text):
     fnmap = fn_spans(gen_text)
     out = {'failed_tags': {}, 'untagged': [], 'infra': [], 'resource': [], 'compile_errors': []}
     j = res['json']
+    # once Verus reports `verified: N` it has passed type/mode checking: every error diagnostic from then on is a failed proof obligation
+    vr0 = (j or {}).get('verification-results') or {}
+    ran_verification = ('verified' in vr0) and not vr0.get('encountered-vir-error')
     for d in res['diags']:
         if d.get('level') != 'error': continue
         msg = d.get('message', '')
@@ -109,7 +112,7 @@ def classify(meta, res, gen_text):
         labels = [(s.get('label') or '') for s in d.get('spans', [])]
         rec = {'message': msg, 'lines': span_lines[:12], 'labels': labels,
                'text': [lines[l - 1].strip()[:200] for l in span_lines[:4] if 0 < l <= len(lines)]}
-        definite = any(k in msg for k in DEFINITE)
+        definite = any(k in msg for k in DEFINITE) or (ran_verification and not any(k in msg for k in RESOURCE))
         resource = any(k in msg for k in RESOURCE)
         items_hit = {line_item.get(l) for l in span_lines if line_item.get(l)}
         fns_hit = {fnmap.get(l) for l in span_lines}
